@@ -369,6 +369,12 @@ def consumercases(draw):
     c["nproj"] = draw(st.integers(40, 200))
     c["label"] = draw(st.sampled_from([0, 1, 3]))
     c["icolf"] = draw(st.booleans())
+    c["ostep"] = 1
+    if c["which"] == "setmask" and draw(st.booleans()):
+        # a wide, coarser scan: the disc can sit 100+ steps from the axis, where a fraction of a degree shows
+        c["ny"] = draw(st.integers(150, 400))
+        c["ostep"] = draw(st.sampled_from([1, 2, 3]))
+        c["rfrac"] = max(c["rfrac"], 0.8)
     if draw(st.sampled_from([False, False, True])):
         # rotation axis exactly on the sinogram centre: the module's shift is exactly 0.0
         c["y0off"] = 0.5
@@ -376,13 +382,13 @@ def consumercases(draw):
     return c
 
 
-def make_dataset(ybc, full):
+def make_dataset(ybc, full, ostep=1):
     """A DataSet whose bins are made by the library's own guessbins from a regular (dty, omega) scan"""
     from ImageD11.sinograms import dataset
-    nom = 360 if full else 180
+    nom = (360 if full else 180) // ostep
     ds = dataset.DataSet()
     ds.shape = (len(ybc), nom)
-    ds.omega = np.outer(np.ones(len(ybc)), np.arange(nom) * 1.0 + 0.5)
+    ds.omega = np.outer(np.ones(len(ybc)), (np.arange(nom) + 0.5) * ostep)
     ds.dty = np.outer(ybc, np.ones(nom))
     ds.guessbins()
     return ds
@@ -406,12 +412,14 @@ def check_consumers(case, rec=None):
     rng = np.random.RandomState(case["seed"] % (2 ** 32))
     fails = []
     with contextlib.redirect_stdout(io.StringIO()):
-        ok, ds = guard(make_dataset, ybc, case["full"])
+        ok, ds = guard(make_dataset, ybc, case["full"], case.get("ostep", 1))
     if not ok:
         return [exc_failure("DataSet.guessbins", ds)]
     if not (np.allclose(ds.ybincens, ybc, rtol=0, atol=1e-9 * (abs(ybc).max() + 1)) and abs(ds.ystep - ystep) < 1e-9 * ystep):
         return [fail("bins", "DataSet.guessbins: ybincens/ystep differ from the scanned dty values", what="bins")]
-    where = "ny=%d %s ystep=%g y0 offset %.2f steps" % (ny, "0-360" if case["full"] else "0-180", ystep, case["y0off"])
+    where = "ny=%d %s%s ystep=%g y0 offset %.2f steps" % (ny, "0-360" if case["full"] else "0-180",
+                                                          " in %d degree steps" % case["ostep"] if case.get("ostep", 1) > 1
+                                                          else "", ystep, case["y0off"])
     if case["which"] == "grainsino":
         r = rmax * np.sqrt(case["rfrac"])
         a = np.radians(case["ang"])
@@ -487,6 +495,8 @@ def check_consumers(case, rec=None):
                 rec.note("grainsino_cases_with_zero_shift", 1, "sum")
             # a first, rough guess of the axis position (3.2 steps off), then the fitted one on the same object
             ok, sp0 = guard(G.sino_shift_and_pad, gs.recon_y0 + 3.2 * ystep, ny, ymin, ystep)
+            if not ok:
+                sp0 = None
             if ok:
                 gs.update_recon_parameters(pad=int(sp0[1]), shift=sp0[0], y0=gs.recon_y0 + 3.2 * ystep)
             gs.update_recon_parameters(pad=int(sp[1]), shift=sp[0], y0=y0)
@@ -508,6 +518,21 @@ def check_consumers(case, rec=None):
             # ---- the same object asked again with a region-of-interest mask, another mask, and no mask
             full = np.array(rc, float)
             scale = np.abs(full).max()
+            # ---- a second grain object reconstructed with another axis guess: each object keeps its own result
+            with contextlib.redirect_stdout(io.StringIO()):
+                ok, gsB = guard(pipeline)
+                if ok and sp0 is not None:
+                    gsB.update_recon_parameters(pad=int(sp0[1]), shift=sp0[0], y0=y0 + 3.2 * ystep)
+                    ok, rcB = guard(gsB.recon, workers=2)
+            if ok:
+                st_ = gs.recons.get("iradon")
+                if st_ is None or np.shape(st_) != full.shape or not np.array_equal(np.asarray(st_, float), full):
+                    fails.append(fail("grainsino", "after reconstructing a second GrainSinogram (other axis guess) the "
+                                      "first object's stored reconstruction is no longer its own; %s" % where,
+                                      what="twoobjects"))
+                if gs.recon_shift != sp[0] or gs.recon_y0 != y0:
+                    fails.append(fail("grainsino", "update_recon_parameters on a second GrainSinogram changed the first "
+                                      "object's parameters; %s" % where, what="twoobjects"))
             mrng = np.random.RandomState((case["seed"] + 5) % (2 ** 32))
             for step in range(3):
                 if step < 2:
@@ -549,7 +574,7 @@ def check_consumers(case, rec=None):
                 rec.note("max_grainsino_position_error_px", d, "max")
     else:
         # a uniform disc of sample; the refinement mask must sit on it in the map's own grid
-        R = rng.uniform(4 * ystep, max(4.01 * ystep, 0.9 * rmax))
+        R = rng.uniform(4 * ystep, max(4.01 * ystep, (0.25 if ny >= 150 else 0.9) * rmax))
         rc_ = (rmax - R) * np.sqrt(case["rfrac"])
         a = np.radians(case["ang"])
         cx, cy = rc_ * np.cos(a), rc_ * np.sin(a)
@@ -604,7 +629,7 @@ def check_consumers(case, rec=None):
                 rec.note("setmask_area_ratio_min", ratio, "min")
     if rec is not None:
         nt = abs(case["y0off"]) >= 2 or ny % 2 == 0 or case["rfrac"] >= 0.25
-        rec.case(case, nt, ["consumer:" + case["which"]])
+        rec.case(case, nt, ["consumer:" + case["which"]] + (["consumer:setmask_wide_scan"] if ny >= 150 else []))
     return fails
 
 
